@@ -9,11 +9,15 @@ form of the struct after decoding. The engine's metadata value is (canonical for
 ops (tokens separated by single spaces)
   read  <members> <eof|err> <oracle>
   gz    <0|1> <members|@> <eof|err> <clean|corrupt|extra> <oracle>      (@ = the base members)
-  base  <members>                       remember a complete archive; answers count and byte length
+  base  <members> <oracle>              remember a complete archive (and its oracle, later `^`);
+                                        answers count and byte length
   layout                                regions of the base archive
+  write <meta bytes> <size> <snap> <0|1>   archive.go write: members it produces (`short-snap` on error);
+                                        the last flag is the map order of the two SHA256SUMS lines
   trunc <cut> <oracle>                  base archive cut to its first <cut> bytes
   bflip <pos> <val> <oracle>            base archive with byte <pos> set to <val>
-members = `-` or comma separated `name;data;short` (name, data as string tokens, short 0|1).
+members = `-` or comma separated `name;data;short` (name, data as string tokens, short 0|1)
+          or `@i` (member i of the base archive); `@` alone = all base members.
 -/
 import CV.Tar
 import CV.Sha256
@@ -29,14 +33,24 @@ def applyO (m : Meta) (_buf : Bytes) : Option Meta :=
   | none :: _ => none
   | some c :: rest => some (c, rest)
 
-def parseMember (tok : String) : Option Member :=
-  match tok.splitOn ";" with
-  | [n, d, s] => do
-      let name ← decB n; let data ← decB d; let short ← decBool s
-      pure ⟨name, data, short⟩
-  | _ => none
+abbrev Base := List (Bytes × Bytes)
 
-def parseMembers (tok : String) : Option (List Member) := (decList tok).mapM parseMember
+/-- `name;data;short`, or `@i` = member i of the base archive, complete -/
+def parseMember (base : Base) (tok : String) : Option Member :=
+  match tok.toList with
+  | '@' :: rest => do
+      let i ← (String.ofList rest).toNat?
+      let x ← base[i]?
+      pure (full x)
+  | _ =>
+    match tok.splitOn ";" with
+    | [n, d, s] => do
+        let name ← decB n; let data ← decB d; let short ← decBool s
+        pure ⟨name, data, short⟩
+    | _ => none
+
+def parseMembers (base : Base) (tok : String) : Option (List Member) :=
+  if tok == "@" then some (base.map full) else (decList tok).mapM (parseMember base)
 
 def parseEnding (tok : String) : Option Ending :=
   if tok == "eof" then some .eof else if tok == "err" then some .err else none
@@ -45,8 +59,10 @@ def parseTail (tok : String) : Option GzTail :=
   if tok == "clean" then some .clean else if tok == "corrupt" then some .corrupt
   else if tok == "extra" then some .extra else none
 
-def parseOracle (tok : String) : Option (List (Option Bytes)) :=
-  (decList tok).mapM fun t => if t == "!" then some none else (decB t).map some
+/-- `^` = the oracle registered with the base archive -/
+def parseOracle (baseO : List (Option Bytes)) (tok : String) : Option (List (Option Bytes)) :=
+  if tok == "^" then some baseO
+  else (decList tok).mapM fun t => if t == "!" then some none else (decB t).map some
 
 def errName : Err → String
   | .tar => "tar" | .metaRead => "meta-read" | .metaJson => "meta-json" | .stateIO => "state-io"
@@ -73,60 +89,76 @@ def viewStr (s : Stream) : String :=
   let ms := s.members.map fun m => encB m.name ++ ":" ++ (if m.short then "s" else "c") ++ toString m.data.length
   encList ms ++ "/" ++ (match s.ending with | .eof => "eof" | .err => "err")
 
+def membersStr (s : Stream) : String :=
+  encList (s.members.map fun m => encB m.name ++ ";" ++ encB m.data ++ ";" ++ encBool m.short) ++ "/" ++
+    (match s.ending with | .eof => "eof" | .err => "err")
+
 def clsStr : Cls → String
   | .header i => s!"hdr{i}" | .data i => s!"data{i}" | .pad i => s!"pad{i}" | .trailer => "trailer"
 
 def regionStr (r : Region) : String := s!"{clsStr r.cls}:{r.start}:{r.len}"
 
-abbrev Base := List (Bytes × Bytes)
+structure St where
+  base : Base := []
+  orc  : List (Option Bytes) := []
 
-def step (base : Base) (toks : List String) : Base × String :=
+def step (st : St) (toks : List String) : St × String :=
+  let base := st.base
+  let parseMembers := parseMembers st.base
+  let parseOracle := parseOracle st.orc
+  let ret (s : String) : St × String := (st, s)
   match toks with
   | ["read", ms, e, o] =>
     match parseMembers ms, parseEnding e, parseOracle o with
     | some ms, some e, some o =>
-      if oracleFits ms o then (base, runRead ⟨ms, e⟩ o) else (base, "bad-op")
-    | _, _, _ => (base, "bad-op")
+      if oracleFits ms o then ret (runRead ⟨ms, e⟩ o) else ret ("bad-op")
+    | _, _, _ => ret ("bad-op")
   | ["gz", h, ms, e, t, o] =>
-    let msP : Option (List Member) := if ms == "@" then some (base.map full) else parseMembers ms
-    match decBool h, msP, parseEnding e, parseTail t, parseOracle o with
+    match decBool h, parseMembers ms, parseEnding e, parseTail t, parseOracle o with
     | some h, some ms, some e, some t, some o =>
       if oracleFits ms o then
-        (base, verdict (readGz Sha256.sha256 applyO (zeroMeta, o) ⟨h, ⟨ms, e⟩, t⟩))
-      else (base, "bad-op")
-    | _, _, _, _, _ => (base, "bad-op")
-  | ["base", ms] =>
-    match parseMembers ms with
-    | some ms =>
-      if ms.all (fun m => !m.short) then
+        ret (verdict (readGz Sha256.sha256 applyO (zeroMeta, o) ⟨h, ⟨ms, e⟩, t⟩))
+      else ret ("bad-op")
+    | _, _, _, _, _ => ret ("bad-op")
+  | ["base", ms, o] =>
+    match parseMembers ms, parseOracle o with
+    | some ms, some o =>
+      if ms.all (fun m => !m.short) && oracleFits ms o then
         let b : Base := ms.map fun m => (m.name, m.data)
-        (b, s!"ok n={b.length} total={total (b.map (·.2.length))}")
-      else (base, "bad-op")
-    | none => (base, "bad-op")
+        (⟨b, o⟩, s!"ok n={b.length} total={total (b.map (·.2.length))}")
+      else ret ("bad-op")
+    | _, _ => ret ("bad-op")
+  | ["write", mb, sz, snap, sw] =>
+    match decB mb, sz.toNat?, decB snap, decBool sw with
+    | some mb, some sz, some snap, some sw =>
+      match writeStream Sha256.sha256 (fun (_ : Unit) => mb) (fun _ => sz) sw () snap with
+      | none => ret ("short-snap")
+      | some s => ret (membersStr s)
+    | _, _, _, _ => ret ("bad-op")
   | ["layout"] =>
-    (base, encList ((layout (base.map (·.2.length))).map regionStr))
+    ret (encList ((layout (base.map (·.2.length))).map regionStr))
   | ["trunc", c, o] =>
     match c.toNat?, parseOracle o with
     | some cut, some o =>
       let s := truncStream base cut
-      if oracleFits s.members o then (base, s!"view={viewStr s} {runRead s o}") else (base, "bad-op")
-    | _, _ => (base, "bad-op")
+      if oracleFits s.members o then ret (s!"view={viewStr s} {runRead s o}") else ret ("bad-op")
+    | _, _ => ret ("bad-op")
   | ["bflip", p, v, o] =>
     match p.toNat?, v.toNat?, parseOracle o with
     | some pos, some val, some o =>
       if val < 256 then
         match flipViews base pos val with
         | [s] =>
-          if oracleFits s.members o then (base, s!"view={viewStr s} {runRead s o}") else (base, "bad-op")
+          if oracleFits s.members o then ret (s!"view={viewStr s} {runRead s o}") else ret ("bad-op")
         | [s1, s2] =>
           if oracleFits s1.members o then
-            (base, s!"chk view={viewStr s1}|{viewStr s2} {runRead s1 o}|{runRead s2 (o.take (s2.members.filter (·.name = nMeta)).length)}")
-          else (base, "bad-op")
-        | _ => (base, "bad-op")
-      else (base, "bad-op")
-    | _, _, _ => (base, "bad-op")
-  | _ => (base, "bad-op")
+            ret (s!"chk view={viewStr s1}|{viewStr s2} {runRead s1 o}|{runRead s2 (o.take (s2.members.filter (·.name = nMeta)).length)}")
+          else ret ("bad-op")
+        | _ => ret ("bad-op")
+      else ret ("bad-op")
+    | _, _, _ => ret ("bad-op")
+  | _ => ret ("bad-op")
 
-def engine : Engine := { State := Base, init := [], step := step }
+def engine : Engine := { State := St, init := {}, step := step }
 
 end CV.Engine.C20
